@@ -30,7 +30,20 @@ func GenerateMpm(rng *rand.Rand, rsize int) string {
 		}
 		sb.WriteString("\t\tcout <- reg_x\n\t}\n}\n\n")
 	}
-	sb.WriteString("func main() {\n\tvar out0 bondgo.Output\n")
+	// goroutines without arguments, started by main before anything else: the new processor is numbered
+	// while the usage monitor may still be recording the previous one
+	nsolo := 0
+	if rng.IntN(2) == 0 {
+		nsolo = 1 + rng.IntN(2)
+	}
+	for k := 0; k < nsolo; k++ {
+		fmt.Fprintf(&sb, "func solo%d() {\n\tvar so bondgo.Output\n\tvar reg_s %s\n\tso = bondgo.Make(bondgo.Output, %d)\n\tfor {\n\t\treg_s++\n\t\tbondgo.IOWrite(so, reg_s)\n\t}\n}\n\n", k, t, 40+k)
+	}
+	sb.WriteString("func main() {\n")
+	for k := 0; k < nsolo; k++ {
+		fmt.Fprintf(&sb, "\tgo solo%d()\n", k)
+	}
+	sb.WriteString("\tvar out0 bondgo.Output\n")
 	if rng.IntN(2) == 0 {
 		sb.WriteString("\tvar in0 bondgo.Input\n")
 	}
